@@ -6,4 +6,4 @@ Extraction "model.ml" site_out faithful_cfg conformant_cfg cfg_docs_escaped sink
   markupsafe_escape autoescape_selected html_template_names filter_tag_id filter_url_from_type filter_make_unique
   filter_namespace_doc ung_reset scan wf_tokens no_markup no_special url_links_service
   all_dsdl_text_sinks_escaped table_balanced html_skeletons unsafe_sites sinks_classified_safe
-  filter_display_type node_of_dtype node_of_dinst.
+  filter_display_type node_of_dtype node_of_dinst ns_ids_dashed.
